@@ -490,6 +490,10 @@ def call_builtin(I, name, args, kwargs):
             t = _dt.datetime(*[v.as_long() for v in vals])
             return Tm((t - _dt.datetime(2000, 1, 1)).total_seconds())
         raise Unsupported("datetime(...) with symbolic fields")
+    if name == "set" and not args and not kwargs:
+        o = I.new_map(lambda x: Fl(z3.RealVal(1)), lambda x: FALSE, None, "dict")        # the empty set: a map with an empty domain
+        I.heap[o.oid]["pyset"] = True
+        return o
     if name in ("timedelta", "datetime.timedelta"):
         # a duration is its number of seconds on the same real line as datetimes (A: microsecond resolution is not modelled)
         units = {"days": 86400, "seconds": 1, "microseconds": z3.RealVal("1/1000000"), "milliseconds": z3.RealVal("1/1000"), "minutes": 60,
